@@ -88,6 +88,13 @@ type IsoOp struct {
 	// Props: which step properties the caller passes: 0 the full set,
 	// 1 an empty map, 2 nil (what Walk(..., nil) and cmd/sheensio do)
 	Props int `json:"props,omitempty"`
+	// ViaAction: the source is executed through the compiled core.Action
+	// that a specification would hold (ActionSource.Compile), not by
+	// calling the interpreter directly.
+	ViaAction bool `json:"viaAction,omitempty"`
+	// Perm: which permanent ('!') bindings the caller's bindings hold:
+	// 0 "cfg!", 1 none, 2 "cfg!" and "id!"
+	Perm int `json:"perm,omitempty"`
 }
 
 type IsoCase struct {
@@ -113,10 +120,13 @@ func genIso(t *rapid.T) IsoCase {
 			op.G = rapid.IntRange(0, c.Goroutines-1).Draw(t, fmt.Sprintf("g%d", i))
 		}
 		op.Props = rapid.SampledFrom([]int{0, 0, 0, 1, 2}).Draw(t, fmt.Sprintf("props%d", i))
+		op.ViaAction = rapid.Bool().Draw(t, fmt.Sprintf("via%d", i))
+		op.Perm = rapid.SampledFrom([]int{0, 0, 1, 2}).Draw(t, fmt.Sprintf("perm%d", i))
 		c.Ops = append(c.Ops, op)
 	}
 	// always end with a probe
-	c.Ops = append(c.Ops, IsoOp{Polluter: -1, Props: rapid.SampledFrom([]int{0, 0, 1, 2}).Draw(t, "propsLast")})
+	c.Ops = append(c.Ops, IsoOp{Polluter: -1, Props: rapid.SampledFrom([]int{0, 0, 1, 2}).Draw(t, "propsLast"),
+		ViaAction: rapid.Bool().Draw(t, "viaLast"), Perm: rapid.SampledFrom([]int{0, 1, 2}).Draw(t, "permLast")})
 	return c
 }
 
@@ -126,6 +136,17 @@ func inputBindings() match.Bindings {
 		"d":     map[string]interface{}{"e": map[string]interface{}{"f": []interface{}{}}},
 		"items": []interface{}{map[string]interface{}{"qty": 1.0}, map[string]interface{}{"qty": 2.0, "tags": []interface{}{"t"}}},
 		"grid":  []interface{}{[]interface{}{1.0, 2.0}, []interface{}{3.0}}}
+}
+
+func inputBindingsPerm(perm int) match.Bindings {
+	bs := inputBindings()
+	switch perm {
+	case 1:
+		delete(bs, "cfg!")
+	case 2:
+		bs["id!"] = "A"
+	}
+	return bs
 }
 
 func inputPropsMode(mode int) core.StepProps {
@@ -152,7 +173,9 @@ var (
 	isoInterp   *ecmascript.Interpreter
 	isoCompiled []interface{}
 	isoProbe    interface{}
-	isoBaseline [3]string // per props mode
+	isoBaseline [3][3][2]string // per props mode, permanent-bindings mode, direct / via action
+	isoActions  []core.Action   // the polluters as compiled actions
+	isoProbeAct core.Action
 	isoErr      error
 )
 
@@ -177,15 +200,44 @@ func isoSetup() {
 			return
 		}
 		// baseline: the probe on a fresh interpreter, nothing run before
-		for mode := 0; mode < 3; mode++ {
-			fresh := ecmascript.NewInterpreter()
-			fresh.Extended = true
-			exe, err := fresh.Exec(ctx, inputBindings(), inputPropsMode(mode), probeSrc, nil)
+		ints := core.InterpretersMap{"ecmascript-ext": isoInterp}
+		for _, p := range polluters {
+			a, err := (&core.ActionSource{Interpreter: "ecmascript-ext", Source: p.src}).Compile(ctx, ints)
 			if err != nil {
-				isoErr = fmt.Errorf("probe fails on a fresh interpreter: %v", err)
+				isoErr = fmt.Errorf("polluter %s does not compile as an action: %v", p.name, err)
 				return
 			}
-			isoBaseline[mode] = jsongen.Canon(map[string]interface{}(exe.Bs))
+			isoActions = append(isoActions, a)
+		}
+		if isoProbeAct, err = (&core.ActionSource{Interpreter: "ecmascript-ext", Source: probeSrc}).Compile(ctx, ints); err != nil {
+			isoErr = err
+			return
+		}
+		for mode := 0; mode < 3; mode++ {
+			for perm := 0; perm < 3; perm++ {
+				fresh := ecmascript.NewInterpreter()
+				fresh.Extended = true
+				exe, err := fresh.Exec(ctx, inputBindingsPerm(perm), inputPropsMode(mode), probeSrc, nil)
+				if err != nil {
+					isoErr = fmt.Errorf("probe fails on a fresh interpreter: %v", err)
+					return
+				}
+				isoBaseline[mode][perm][0] = jsongen.Canon(map[string]interface{}(exe.Bs))
+				// ... and as a freshly compiled action of a fresh interpreter
+				fresh2 := ecmascript.NewInterpreter()
+				fresh2.Extended = true
+				act, err := (&core.ActionSource{Interpreter: "x", Source: probeSrc}).Compile(ctx, core.InterpretersMap{"x": fresh2})
+				if err != nil {
+					isoErr = err
+					return
+				}
+				exe, err = act.Exec(ctx, inputBindingsPerm(perm), inputPropsMode(mode))
+				if err != nil || exe == nil {
+					isoErr = fmt.Errorf("probe action fails on a fresh interpreter: %v", err)
+					return
+				}
+				isoBaseline[mode][perm][1] = jsongen.Canon(map[string]interface{}(exe.Bs))
+			}
 		}
 	})
 }
@@ -200,16 +252,26 @@ func checkIso(c IsoCase) (v ev.Verdict) {
 	polluted := map[string]bool{}
 	probesAfter := 0
 	runOp := func(op IsoOp) string {
-		bs, props := inputBindings(), inputPropsMode(op.Props)
+		bs, props := inputBindingsPerm(op.Perm), inputPropsMode(op.Props)
 		sb := jsongen.Snap(map[string]interface{}(bs))
 		sp := jsongen.Snap(map[string]interface{}(props))
 		var exe *core.Execution
 		var err error
 		name := "probe"
-		if op.Polluter >= 0 {
+		via := 0
+		if op.ViaAction {
+			via = 1
+		}
+		switch {
+		case op.Polluter >= 0 && op.ViaAction:
+			name = polluters[op.Polluter].name
+			exe, err = isoActions[op.Polluter].Exec(ctx, bs, props)
+		case op.Polluter >= 0:
 			name = polluters[op.Polluter].name
 			exe, err = isoInterp.Exec(ctx, bs, props, polluters[op.Polluter].src, isoCompiled[op.Polluter])
-		} else {
+		case op.ViaAction:
+			exe, err = isoProbeAct.Exec(ctx, bs, props)
+		default:
 			exe, err = isoInterp.Exec(ctx, bs, props, probeSrc, isoProbe)
 		}
 		if jsongen.Snap(map[string]interface{}(bs)).Text != sb.Text {
@@ -223,8 +285,8 @@ func checkIso(c IsoCase) (v ev.Verdict) {
 				return fmt.Sprintf("the probe failed after other scripts ran: %v", err)
 			}
 			got := jsongen.Canon(map[string]interface{}(exe.Bs))
-			if got != isoBaseline[op.Props] {
-				return fmt.Sprintf("the probe (props mode %d) sees the effects of other executions:\n got      %s\n baseline %s", op.Props, got, isoBaseline[op.Props])
+			if got != isoBaseline[op.Props][op.Perm][via] {
+				return fmt.Sprintf("the probe (props mode %d, permanent bindings mode %d, via compiled action %v) sees the effects of other executions:\n got      %s\n baseline %s", op.Props, op.Perm, op.ViaAction, got, isoBaseline[op.Props][op.Perm][via])
 			}
 		}
 		return ""
